@@ -1413,8 +1413,8 @@ func checkC18(r *mon.Run) {
 		return
 	}
 
-	nEnc := r.Pick(24000, 600000)
-	nDec := r.Pick(60000, 1500000)
+	nEnc := r.Pick(80000, 1500000)
+	nDec := r.Pick(200000, 4000000)
 	const chunk = 200
 	runTasks(r, (nEnc+chunk-1)/chunk, func(t int, a *acc) {
 		rng := r.Rand(fmt.Sprintf("c18/enc/%d", t))
